@@ -24,6 +24,7 @@ EXPRS = {
     'R^x': lambda R, x: R ^ x, 'R|x': lambda R, x: R | x, 'R&x': lambda R, x: R & x, 'hodge(R*x)': lambda R, x: (R * x).hodge(),
     'x@R': lambda R, x: x @ R, 'R*x-x*R+2*x': lambda R, x: R * x - x * R + 2 * x, 'x.lc(R)': lambda R, x: x.lc(R),
     '~(x*R)': lambda R, x: ~(x * R), 'R.acp(x)-x': lambda R, x: R.acp(x) - x,
+    '(x|R)*R': lambda R, x: (x | R) * R, 'R*(x^R)': lambda R, x: R * (x ^ R), 'R.sw(x)+R.cp(x)': lambda R, x: R.sw(x) + R.cp(x),
 }
 MODES = ['sym', 'num', 'arr', 'reslike', 'reslike-num']
 
@@ -31,7 +32,7 @@ MODES = ['sym', 'num', 'arr', 'reslike', 'reslike-num']
 def floors(tier):
     f = {'distinct_nontrivial': 600 if tier == 'quick' else 60000, 'homomorphism_blade_pairs': 20000, 'first_column_checks': 1500,
          'frommatrix_round_trips': 300, 'linearity_checks': 300, 'rank_checks': 80, 'expr_cases': 300,
-         'custom_basis_algebras': 20, 'signature_orderings': 60}
+         'custom_basis_algebras': 20, 'signature_orderings': 60, 'dense_layout_operands': 60, 'shared_symbol_inputs': 30}
     for m in MODES:
         f['expr_mode_' + m] = 40
     return f
@@ -139,8 +140,13 @@ def asmatrix_unit(ctx, unit):
         import sympy
         kx = gen.random_subset(rng, canon, 5, 1)
         ky = gen.random_subset(rng, canon, 5, 1)
-        if rng.random() < 0.4:
+        r_ = rng.random()
+        if r_ < 0.3:
             kx = gen.permuted(rng, kx)
+        elif r_ < 0.6 and n <= 16:
+            # dense operand: canonical order, binary order or an arbitrary permutation of all 2^d blades
+            kx = rng.choice([tuple(canon), tuple(range(n)), gen.permuted(rng, canon)])
+            ctx.count('dense_layout_operands')
 
         def val(i):
             if kind == 'frac':
@@ -222,6 +228,13 @@ def expr_unit(ctx, unit):
         rvals = [Fr(gen.small_int(rng, -3, 3, nonzero=True), rng.choice((1, 2))) for _ in rk]
         if mode in ('sym', 'reslike'):
             R = alg.multivector(name='R', keys=rk)
+            if rng.random() < 0.4 and len(rk) >= 2:
+                # symbols shared between coefficients: rows then have common symbolic factors
+                syms = list(R.values())
+                shared = [syms[0] if (i % 2 == 0) else syms[1] for i in range(len(syms))]
+                R = gen.mv_from(alg, rk, shared)
+                rvals = [rvals[0] if (i % 2 == 0) else rvals[1] for i in range(len(rvals))]
+                ctx.count('shared_symbol_inputs')
         elif mode in ('num', 'reslike-num'):
             R = gen.mv_from(alg, rk, [float(v) for v in rvals])
         else:
